@@ -3,7 +3,7 @@ from cq import *
 from c02 import sql_ast_arg
 
 PROP = "C07"
-KNOWN = {1: "derived_table_columns_leak", 2: "update_from_returning_order", 3: "cte_alias_shared", 5: "star_over_unnamed_cte_column"}
+KNOWN = {1: "derived_table_columns_leak", 2: "update_from_returning_order", 3: "cte_alias_shared", 5: "star_over_unnamed_cte_column", 6: "star_over_qualified_cast_column", 7: "star_over_duplicate_column_names"}
 
 
 def gen(rng):
